@@ -198,6 +198,24 @@ def gen(rng: random.Random, tier: str):
     cases.append(prune_case(bt, True, "/", "/", True, 0, ["/1/3"], [3], "ok", tags=("corpus", "binary", "D2")))
     cases.append(subtree_case(bt, True, "/", 0, "3", 3, 1, "ok", tags=("corpus", "binary")))
 
+    # ---- a WIDE parent (70 children, a few with subtrees) and a DEEP chain (120 levels with side leaves)
+    wide_shape = [[] for _ in range(30)] + [[[[]]], [[]], [[[[]], []]]] + [[] for _ in range(37)]
+    def _chain(k):
+        return [] if k == 0 else ([_chain(k - 1), []] if k % 30 == 7 else [_chain(k - 1)])
+    for shape, wtag in ((wide_shape, "wide"), (_chain(119), "deep")):
+        spec = plain(shape)
+        nodes = number(spec)
+        n = len(nodes)
+        for tg in ([31], [33], [n - 1], [31, 40], [n // 2]):
+            if any(i >= n for i in tg) or any(a in ancestors(nodes, b) for a in tg for b in tg if a != b):
+                continue
+            for exact in (False, True):
+                for md in (0, 3, 60):
+                    paths = [path_str("/", nodes[i][2]) for i in tg]
+                    cases.append(prune_case(spec, False, "/", "/", exact, md, paths, tg, "ok", tags=("corpus", wtag)))
+        for i in (0, 31, n // 2, n - 1):
+            for md in (0, 2, 50):
+                cases.append(subtree_case(spec, False, "/", 0, nodes[i][2][-1], i, md, "ok", tags=("corpus", wtag, "subtree")))
     # ---- exhaustive small scope
     nmax = 5 if tier == "quick" else 6
     for shape in core.all_shapes_upto(nmax):
